@@ -48,6 +48,9 @@ CHECKS = {
  "C03": dict(engine="crashx", cat="fault_enumeration", tech="exhaustive crash-point x torn-write enumeration over traced executions of the real store, recovered content compared with every prefix of the commit order",
   text="Same image enumeration as C02 (shared engine, separate verdict): the full scan of every recovered image must equal the map model at one prefix of the commit order, no transaction partially present, nothing deleted or overwritten within the prefix reappearing; includes crash points inside flush, manifest replacement, compaction (output, manifest switch, input deletion), WAL repair and orphan clean-up during the traced recovery of second-generation runs.",
   note="Sequential commit order (single committer). Crash model as stated in C02.", ref="DESIGN.md §5 C03"),
+ "C15": dict(engine="crashx", cat="fault_enumeration", tech="exhaustive fault-position enumeration (every call position of every call class x error kind x once/persistent) injected at the libc boundary into traced executions of the real store",
+  text="Four workloads (commits of both durabilities against a tiny memtable, explicit and in-apply rotation, flush, background drain; plain / value-log / version-index / flush-on-close option sets) run once per injected fault: every position of every mutating call class (write-like: EIO, ENOSPC, short write then ENOSPC; fsync: EIO; rename: EIO; create: ENOSPC), once and persistently. The worker reads the visible key set after every operation and then dies; the directory it leaves is reopened with faults off. A commit that returned an error must never be visible; acknowledged commits must stay readable; commits acknowledged after a failed commit (all acknowledged commits if no error was ever reported) must survive the crash; no panic, no hang.",
+  note="Faults are injected by the LD_PRELOAD shim after the initial open. Whether a failed commit's WAL record reappears after recovery is not judged; durability of commits acknowledged before a *reported* I/O failure is not judged (counted in evidence).", ref="DESIGN.md §5 C15"),
 }
 
 NOT_YET = {}
